@@ -139,6 +139,40 @@ Fixpoint spec_to_json (int_bits : Z -> N) (v : pval) : option jtree :=
   end.
 
 
+(* ------------------------------------------------------------------ the reader's repeated-key rule = the model's insertion loop *)
+Lemma bytes_eqb_eq : forall a b, bytes_eqb a b = true -> a = b.
+Proof.
+  induction a as [|x a IH]; destruct b as [|y b]; simpl; intros H; try discriminate; [reflexivity|].
+  apply andb_prop in H. destruct H as [H1 H2]. f_equal; [lia|apply IH; exact H2].
+Qed.
+
+Lemma fold_put_cons : forall {A} (r : list (bytes * A)) k v acc,
+  fold_left (fun m kv => map_put m (fst kv) (snd kv)) r ((k, v) :: acc) =
+  (k, last_or k r v) :: fold_left (fun m kv => map_put m (fst kv) (snd kv))
+                                  (filter (fun kv => negb (bytes_eqb (fst kv) k)) r) acc.
+Proof.
+  intros A. induction r as [|[k1 v1] r IH]; intros k v acc; [reflexivity|].
+  cbn [fold_left fst snd map_put filter last_or]. destruct (bytes_eqb k1 k) eqn:E.
+  - apply bytes_eqb_eq in E. subst k1. cbn [negb]. rewrite IH. reflexivity.
+  - cbn [negb fold_left fst snd]. rewrite IH. reflexivity.
+Qed.
+
+Lemma filter_length_le : forall {A} (p : A -> bool) l, (length (filter p l) <= length l)%nat.
+Proof. intros A p l. induction l as [|x l IH]; simpl; [lia|]. destruct (p x); simpl; lia. Qed.
+
+Lemma sp_dedupe_f_eq : forall {A} fuel (l : list (bytes * A)), (length l <= fuel)%nat ->
+  sp_dedupe_f fuel l = dedupe l.
+Proof.
+  intros A. induction fuel as [|f IH]; intros l H.
+  - destruct l; [reflexivity|simpl in H; lia].
+  - destruct l as [|[k v] r]; [reflexivity|]. cbn [sp_dedupe_f]. unfold dedupe. cbn [fold_left fst snd map_put].
+    rewrite fold_put_cons. f_equal. rewrite IH; [reflexivity|].
+    pose proof (filter_length_le (fun kv : bytes * A => negb (bytes_eqb (fst kv) k)) r). simpl in H. lia.
+Qed.
+
+Lemma sp_dedupe_eq : forall {A} (l : list (bytes * A)), sp_dedupe l = dedupe l.
+Proof. intros A l. apply sp_dedupe_f_eq. lia. Qed.
+
 (* ------------------------------------------------------------------ J1: the encoder *)
 Lemma encoder_agrees_l : forall ib v, to_json ib v = spec_to_json ib v.
 Proof.
@@ -161,7 +195,7 @@ Proof.
   induction t as [| b | i z b | s | l IH | l IH] using jtree_ind2; try reflexivity.
   - cbn [unmarshal_value spec_of_json]. f_equal. apply map_ext_in. intros x Hx.
     rewrite Forall_forall in IH. apply IH. exact Hx.
-  - cbn [unmarshal_value spec_of_json]. f_equal. f_equal. apply map_ext_in. intros kv Hin.
+  - cbn [unmarshal_value spec_of_json]. rewrite sp_dedupe_eq. f_equal. f_equal. apply map_ext_in. intros kv Hin.
     rewrite Forall_forall in IH. rewrite (IH kv Hin). reflexivity.
 Qed.
 
@@ -199,7 +233,7 @@ Proof.
   - cbn [keys_ok] in K. cbn [unmarshal_value assoc_value spec_of_json]. f_equal. rewrite map_map.
     apply map_ext_in. intros x Hx. rewrite Forall_forall in IH. apply IH; [exact Hx|].
     rewrite forallb_forall in K. apply K. exact Hx.
-  - cbn [keys_ok] in K. cbn [unmarshal_value assoc_value spec_of_json].
+  - cbn [keys_ok] in K. cbn [unmarshal_value assoc_value spec_of_json]. rewrite sp_dedupe_eq.
     assert (E : map (fun kv : bytes * pval => (fst kv, assoc_value (snd kv)))
                     (dedupe (map (fun kv : bytes * jtree => (fst kv, unmarshal_value (snd kv))) l)) =
                 dedupe (map (fun kv : bytes * jtree => (fst kv, spec_of_json true (snd kv))) l)).
@@ -260,7 +294,7 @@ Proof.
       exists ((k, t) :: ts). split; [cbn; rewrite U1, Et, E1; reflexivity|].
       cbn [map]. unfold on_snd at 1 3. cbn [fst snd]. rewrite Ev, E2. reflexivity. }
     exists (JObj ts). split; [cbn [spec_to_json]; rewrite E1; reflexivity|].
-    cbn [spec_of_json view]. fold (@on_snd jtree pval (spec_of_json assoc)). rewrite E2.
+    cbn [spec_of_json view]. rewrite sp_dedupe_eq. fold (@on_snd jtree pval (spec_of_json assoc)). rewrite E2.
     rewrite dedupe_nodup by (rewrite nodup_map; exact Hn). reflexivity.
   - cbn [spec_ok] in H. apply andb_prop in H. destruct H as [Hn H].
     assert (exists ts, opt_map_all (fun kv => match (if utf8_valid (fst kv) then spec_to_json ib (snd kv) else None) with
@@ -274,7 +308,7 @@ Proof.
       exists ((k, t) :: ts). split; [cbn; rewrite U1, Et, E1; reflexivity|].
       cbn [map]. unfold on_snd at 1 3. cbn [fst snd]. rewrite Ev, E2. reflexivity. }
     exists (JObj ts). split; [cbn [spec_to_json]; rewrite E1; reflexivity|].
-    cbn [spec_of_json view]. fold (@on_snd jtree pval (spec_of_json assoc)). rewrite E2.
+    cbn [spec_of_json view]. rewrite sp_dedupe_eq. fold (@on_snd jtree pval (spec_of_json assoc)). rewrite E2.
     rewrite dedupe_nodup by (rewrite nodup_map; exact Hn). reflexivity.
 Qed.
 
